@@ -254,6 +254,44 @@ vk_registry!{ vkreplay_c05a; vkc05_assign_whole_variable_f64 }
 '''
 
 
+DETACH_MODEL = """
+// Model of the part of `Value` that detach_variable_value looks at.  A data variant holds a `Ref<T>` = Rc<RefCell<T>>:
+// the model records the identity of that cell.  `Value::clone()` is the derived clone: it clones the Rc, i.e. the copy
+// holds THE SAME cell (that is what Rc::clone does; assumed, it is the definition of Rc).
+pub enum Value { Data(int), MutableReference(Box<Value>) }
+pub open spec fn storage(v: Value) -> int decreases v { match v { Value::Data(c) => c, Value::MutableReference(b) => storage(*b) } }
+impl Value {
+  #[verifier::external_body]
+  pub fn clone(&self) -> (r: Value) ensures r == *self { unimplemented!() }
+}
+pub struct RefValue { pub b: Box<Value> }
+impl RefValue {
+  // `reference.borrow()` on a Ref<Value>
+  pub fn borrow(&self) -> (r: &Value) ensures *r == *self.b { &*self.b }
+}
+"""
+
+
+def detach_unit(plan):
+    """(X) `detach_variable_value` (src/interpreter/src/statements.rs), body verbatim over a model of Value in which a data variant
+    is the identity of its Rc cell and `clone()` keeps that identity.  Contract (the property: after `y := x` nothing written
+    through x is visible through y): the returned value does not share the storage cell of the argument."""
+    from vlib import VerusUnit
+    name = "C05.verus.detach_variable_value.fresh_storage"
+    ob = plan.ob(name, "verus", "proved", functions=["detach_variable_value"],
+                 what="the value bound by `y := x` does not share its storage cell with x (so that assigning through x never changes what y shows)")
+    text = read_repo("src/interpreter/src/statements.rs")
+    sig, body = extract_fn(text, "detach_variable_value")
+    if not re.search(r"fn\s+detach_variable_value\s*\(\s*value\s*:\s*&Value\s*\)\s*->\s*Value", sig):
+        raise AnchorLost("detach_variable_value signature changed")
+    b = re.sub(r"//[^\n]*", "", body)
+    b = re.sub(r"Value::MutableReference\((\w+)\)\s*=>\s*detach_variable_value\(&\1\.borrow\(\)\)", r"Value::MutableReference(\1) => detach_variable_value(&**\1)", b)
+    fn = ("fn detach_variable_value(value: &Value) -> (r: Value)\n  ensures storage(r) != storage(*value),\n  decreases *value,\n" + b + "\n")
+    plan.verus.append(VerusUnit("c05_detach", vlib.verus_file([DETACH_MODEL, fn, vlib.verus_canary("canary_detach", "x: u64", [])]), {"detach_variable_value": name}, ["canary_detach"]))
+    plan.dropped.append(detach_unit.__doc__.strip())
+    plan.assumptions.append("C05 detach: `Value::clone()` on a data variant clones the Rc and therefore shares the cell (definition of Rc::clone); `reference.borrow()` is modelled as a plain dereference")
+
+
 def assign_unit(plan):
     """(X) `Assign<T>::solve` (src/interpreter/src/stdlib/assign/mod.rs): the two pointer bindings `self.source.as_ptr()` /
     `self.sink.as_mut_ptr()` become the parameters `source_ptr: &u64`, `sink_ptr: &mut u64`, `unsafe { }` is stripped, the statement
@@ -306,6 +344,10 @@ def plan(plan, tier, seed):
         assign_unit(plan)
     except Exception as e:
         plan.anchor_errors.append(("C05.verus.Assign.solve", repr(e)))
+    try:
+        detach_unit(plan)
+    except Exception as e:
+        plan.anchor_errors.append(("C05.verus.detach_variable_value.fresh_storage", repr(e)))
     # 'a statement that fails leaves every existing binding exactly as before': for an indexed assignment the binding is
     # the sink matrix the kernel writes in place, so the clause is the .atomic obligation of the assignment kernels (proved
     # or refuted in C04); two representative kernels are re-checked here so that this check reports the finding as well
